@@ -45,6 +45,33 @@ def _symbolic(v):
     return type(v).__module__.startswith('crosshair')
 
 
+import sys as _sys
+
+_AUDIT = {"on": False, "events": []}
+_BAD_PREFIXES = ("open", "os.", "socket.", "subprocess.", "import", "exec", "compile", "shutil.", "urllib.", "ctypes.", "tempfile.",
+                 "glob.", "pathlib.", "http.", "ftplib.", "smtplib.", "webbrowser.", "winreg.", "mmap.", "fcntl.", "pty.", "signal.")
+
+
+def _hook(event, args):
+    if _AUDIT["on"] and event.startswith(_BAD_PREFIXES):
+        # attribute the event: walking outwards from where it was raised, a smartquery frame must come before any frame
+        # of the analysis machinery (CrossHair's tracer imports / compiles things of its own while it runs)
+        f = _sys._getframe(1)
+        mine = False
+        while f is not None:
+            fn = f.f_code.co_filename
+            if '/crosshair/' in fn or '/z3/' in fn or fn.endswith('/sqv/hlib.py'):
+                break
+            if '/smartquery/' in fn:
+                mine = True
+                break
+            f = f.f_back
+        if mine:
+            _AUDIT["events"].append(event + ":" + ",".join(str(a)[:60] for a in args[:2]))
+
+
+_sys.addaudithook(_hook)
+
 SPY_SEEN = []
 
 
@@ -60,6 +87,7 @@ _spy._harness_callable = True
 
 EXTRA_KINDS = {
     'P': lambda a: _spy,
+    'O': lambda a: 'cp866',
     'T': lambda a: (3, 'a'),
     'A': lambda a: '__class__',
     'G': lambda a: '{0.__class__.__mro__}',
@@ -139,6 +167,8 @@ def closure_step(a: int, b: int, c: int, n: int, flag: bool, d1: int, d2: int, d
     res, raised = None, None
     del SPY_SEEN[:]
     uses_regex = name in ('match', 'match_groups', 'match_all', 'replace', 'split') and 'P' in shape or name.startswith('match')
+    _AUDIT["events"] = []
+    _AUDIT["on"] = True
     try:
         try:
             if uses_regex:
@@ -149,7 +179,9 @@ def closure_step(a: int, b: int, c: int, n: int, flag: bool, d1: int, d2: int, d
         except Exception as e:
             raised = e
     finally:
+        _AUDIT["on"] = False
         functions.random = saved
+    assert not _AUDIT["events"], "builtin %s performed I/O-like activity (import / open / exec ...): %s" % (name, _AUDIT["events"][:2])
     assert not SPY_SEEN, "builtin %s handed a program lambda a non-plain object (%s)" % (name, SPY_SEEN[:1])
     if raised is None:
         assert is_plain(res), "builtin %s returned something that is not plain data / a builtin / a lambda: %s" % (name, type(res).__name__)
@@ -264,20 +296,6 @@ def builtin_on_builtin(j: int, shape: int) -> None:
         name, list(FUNCTIONS)[j], type(res).__name__)
     hlib.done()
 
-
-import sys as _sys
-
-_AUDIT = {"on": False, "events": []}
-_BAD_PREFIXES = ("open", "os.", "socket.", "subprocess.", "import", "exec", "compile", "shutil.", "urllib.", "ctypes.", "tempfile.",
-                 "glob.", "pathlib.", "http.", "ftplib.", "smtplib.", "webbrowser.", "winreg.", "mmap.", "fcntl.", "pty.", "signal.")
-
-
-def _hook(event, args):
-    if _AUDIT["on"] and event.startswith(_BAD_PREFIXES):
-        _AUDIT["events"].append(event + ":" + ",".join(str(a)[:60] for a in args[:2]))
-
-
-_sys.addaudithook(_hook)
 
 IO_TEMPLATES = [
     "len(zero)", "split(one, one)", "[one] - one", "l | map(v => v / zero)", "int('x')", "u", "1 +", "str(l) + pretty(d)",
